@@ -4,6 +4,7 @@
 package main
 
 import (
+	"os"
 	"context"
 	"fmt"
 	"net"
@@ -126,6 +127,88 @@ var (
 	dPipe     *middleware.Pipeline
 	dSlabChain *middleware.Chain
 )
+
+type chainLog struct {
+	ran    []int
+	writer int
+}
+
+type scripted struct {
+	idx    int
+	script string
+	lg     *chainLog
+}
+
+func (h *scripted) Name() string { return fmt.Sprintf("h%d", h.idx) }
+func (h *scripted) ServeDNS(ctx context.Context, ch *middleware.Chain) {
+	h.lg.ran = append(h.lg.ran, h.idx)
+	for _, a := range h.script {
+		switch a {
+		case 'n':
+			ch.Next(ctx)
+		case 'c':
+			ch.Cancel()
+		case 'w':
+			m := new(dns.Msg)
+			m.SetReply(ch.Request.Msg())
+			if err := ch.Writer.WriteMsg(m); err == nil && h.lg.writer < 0 {
+				h.lg.writer = h.idx
+			}
+		}
+	}
+}
+
+type named struct{ n string }
+
+func (h *named) Name() string                                         { return h.n }
+func (h *named) ServeDNS(ctx context.Context, ch *middleware.Chain) { ch.Next(ctx) }
+
+type namedCO struct {
+	named
+	co bool
+}
+
+func (h *namedCO) ClientOnly() bool { return h.co }
+
+func contains(l []string, s string) bool {
+	for _, x := range l {
+		if x == s {
+			return true
+		}
+	}
+	return false
+}
+
+type identT struct{ ra net.Addr }
+
+func (t *identT) LocalAddr() net.Addr         { return &net.TCPAddr{IP: net.IPv4(127, 0, 0, 1), Port: 53} }
+func (t *identT) RemoteAddr() net.Addr        { return t.ra }
+func (t *identT) WriteMsg(*dns.Msg) error     { return nil }
+func (t *identT) Write(b []byte) (int, error) { return len(b), nil }
+func (t *identT) Close() error                { return nil }
+
+type identP struct {
+	identT
+	p string
+}
+
+func (t *identP) Proto() string { return t.p }
+
+type identI struct {
+	identT
+	i bool
+}
+
+func (t *identI) Internal() bool { return t.i }
+
+type identPI struct {
+	identT
+	p string
+	i bool
+}
+
+func (t *identPI) Proto() string  { return t.p }
+func (t *identPI) Internal() bool { return t.i }
 
 // slabT is a reusable transport: the object stays, the peer changes.
 type slabT struct {
@@ -414,6 +497,109 @@ func exec(op string) vlib.Res {
 		}
 		_ = want
 		return vlib.Res{Impl: "reply=" + strings.Join(got, ""), Oracle: or, Tags: "nt"}
+	case "chain run":
+		// chain run <script;script;…>: a real middleware.Chain of scripted
+		// handlers (n = ch.Next, c = ch.Cancel, w = ch.Writer.WriteMsg, - = return
+		// at once), served once the way a transport does.
+		var hs []middleware.Handler
+		lg := &chainLog{writer: -1}
+		for i, sc := range strings.Split(f[2], ";") {
+			if sc == "-" {
+				sc = ""
+			}
+			hs = append(hs, &scripted{idx: i, script: sc, lg: lg})
+		}
+		ch := middleware.NewChain(hs)
+		w := mock.NewWriter("udp", "10.1.2.3:4242")
+		ch.Reset(w, query())
+		ch.Next(context.Background())
+		var ran []string
+		for _, i := range lg.ran {
+			ran = append(ran, fmt.Sprint(i))
+		}
+		wr := "-"
+		if lg.writer >= 0 {
+			wr = fmt.Sprint(lg.writer)
+		}
+		or := "ok"
+		if (lg.writer >= 0) != w.Written() {
+			or = "FAIL sig=chain/run/accepted-write-and-transport-disagree"
+		}
+		return vlib.Res{Impl: fmt.Sprintf("ran=%s writer=%s", strings.Join(ran, ","), wr), Oracle: or, Tags: "nt"}
+	case "wire build":
+		// wire build <name:flag,…>  flag t = ClientOnly() true, x = ClientOnly()
+		// false, f = does not implement ClientOnly.  The real Registry.Build +
+		// Pipeline.autoWire; which handlers the two internal pipelines hold.
+		reg := middleware.NewRegistry()
+		capt := &stub{}
+		for _, part := range strings.Split(f[2], ",") {
+			nm, fl, _ := strings.Cut(part, ":")
+			var h middleware.Handler
+			switch fl {
+			case "t":
+				h = &namedCO{named{nm}, true}
+			case "x":
+				h = &namedCO{named{nm}, false}
+			default:
+				h = &named{nm}
+			}
+			hh := h
+			reg.Register(nm, func(*config.Config) middleware.Handler { return hh })
+		}
+		reg.Register("stub", func(*config.Config) middleware.Handler { return capt })
+		p := reg.Build(&config.Config{})
+		middleware.VerifAutoWire(p)
+		q := middleware.VerifQueryerNames(capt.q)
+		pq := middleware.VerifQueryerNames(capt.pq)
+		or := "ok"
+		for _, part := range strings.Split(f[2], ",") {
+			nm, fl, _ := strings.Cut(part, ":")
+			if fl == "t" && (contains(q, nm) || contains(pq, nm)) {
+				or = "FAIL sig=wire/client-only-handler-in-internal-pipeline name=" + nm
+			}
+		}
+		if contains(pq, "cache") {
+			or = "FAIL sig=wire/cache-in-prefetch-pipeline"
+		}
+		return vlib.Res{Impl: fmt.Sprintf("q=%s pq=%s", strings.Join(q, ","), strings.Join(pq, ",")), Oracle: or, Tags: "nt"}
+	case "ident derive":
+		// ident derive <udp|tcp|other> <addr> <port> <tproto|-|e> <tinternal t|f|n>
+		var ra net.Addr
+		ip := net.IP(parseAddr(f[3]).AsSlice())
+		port := vlib.Atoi(f[4])
+		switch f[2] {
+		case "udp":
+			ra = &net.UDPAddr{IP: ip, Port: port}
+		case "tcp":
+			ra = &net.TCPAddr{IP: ip, Port: port}
+		default:
+			ra = &net.UnixAddr{Name: "x", Net: "unix"}
+		}
+		base := identT{ra: ra}
+		var t middleware.Transport
+		hasP, hasI := f[5] != "-", f[6] != "n"
+		pr := f[5]
+		if pr == "e" {
+			pr = ""
+		}
+		switch {
+		case hasP && hasI:
+			t = &identPI{identT: base, p: pr, i: f[6] == "t"}
+		case hasP:
+			t = &identP{identT: base, p: pr}
+		case hasI:
+			t = &identI{identT: base, i: f[6] == "t"}
+		default:
+			t = &base
+		}
+		ch := middleware.NewChain(nil)
+		ch.Reset(t, query())
+		internal := ch.Writer.Internal()
+		or := "ok"
+		if internal && !(hasI && f[6] == "t") && !(port == 0 && f[2] != "other" && ip.Equal(net.IPv4(127, 0, 0, 255))) {
+			or = "FAIL sig=ident/network-peer-treated-as-internal"
+		}
+		return vlib.Res{Impl: fmt.Sprintf("proto=%s internal=%s", ch.Writer.Proto(), vlib.B(internal)), Oracle: or, Tags: "nt"}
 	case "sub query":
 		// Internal sub-queries bypass every client-only policy: a
 		// pipeline whose access list denies everything (and whose rate
@@ -634,6 +820,45 @@ func gen(r *vlib.R, n int, tier string, emit func(string)) {
 				emit(fmt.Sprintf("acl serve %s %s %s", genAddr(r, pool), vlib.B(r.Chance(1, 6)), vlib.Pick(r, []string{"udp", "tcp", "doh"})))
 			}
 			n -= q + 1
+		case k == 9 && r.Chance(1, 2):
+			// dispatch, wiring and identity: the glue between the access list
+			// and everything behind it
+			for i, m := 0, 6+r.Intn(8); i < m; i++ {
+				switch r.Intn(3) {
+				case 0:
+					var scs []string
+					for j, nh := 0, 1+r.Intn(6); j < nh; j++ {
+						sc := ""
+						for a, na := 0, r.Intn(4); a < na; a++ {
+							sc += vlib.Pick(r, []string{"n", "n", "n", "c", "w"})
+						}
+						if sc == "" {
+							sc = "-"
+						}
+						if r.Chance(1, 4) {
+							sc = vlib.Pick(r, []string{"n", "c", "wc", "nn", "nw", "cn"})
+						}
+						scs = append(scs, sc)
+					}
+					emit("chain run " + strings.Join(scs, ";"))
+				case 1:
+					pool := []string{"recovery", "metrics", "accesslist", "ratelimit", "reflex", "views", "edns", "hostsfile", "cache", "resolver", "a", "b"}
+					for i := len(pool) - 1; i > 0; i-- {
+						j := r.Intn(i + 1)
+						pool[i], pool[j] = pool[j], pool[i]
+					}
+					var parts []string
+					for _, nm := range pool[:1+r.Intn(len(pool))] {
+						parts = append(parts, nm+":"+vlib.Pick(r, []string{"t", "f", "f", "x"}))
+					}
+					emit("wire build " + strings.Join(parts, ","))
+				default:
+					addr := vlib.Pick(r, []string{"4:7f0000ff", "m:7f0000ff", "4:7f000001", "4:7f0000fe", "6:00000000000000000000000000000001", "4:0a000001"})
+					emit(fmt.Sprintf("ident derive %s %s %s %s %s", vlib.Pick(r, []string{"udp", "tcp", "other"}), addr,
+						vlib.Pick(r, []string{"0", "0", "53", "4242", "65535"}), vlib.Pick(r, []string{"-", "-", "e", "doh", "doq", "tcp"}), vlib.Pick(r, []string{"n", "n", "f", "t"})))
+				}
+			}
+			n -= 10
 		case k == 8 && r.Chance(1, 2):
 			// the real default chain ahead of the answer surface: a denied
 			// source must get nothing whatever it sends (EDNS version,
@@ -718,7 +943,18 @@ func facts() map[string]any {
 		c, ok := h.(middleware.ClientOnly)
 		return ok && c.ClientOnly()
 	}
+	// ClientOnly() of every handler of the default chain, asked of the
+	// handlers the registered constructors build.
+	full := &config.Config{AccessList: []string{"192.0.2.1/32"}, ClientRateLimit: 1, Directory: os.TempDir()}
+	full.ReflexEnabled = true
+	p := middleware.DefaultRegistry.Build(full)
+	var cos []bool
+	for _, n := range names {
+		h := p.Get(n)
+		cos = append(cos, h != nil && co(h))
+	}
 	return map[string]any{
+		"chain_clientonly":     cos,
 		"chain_order":          names,
 		"clientonly_accesslist": co(accesslist.New(cfg)),
 		"clientonly_ratelimit":  co(ratelimit.New(cfg)),
